@@ -57,7 +57,12 @@ def probe_solver_pair(inp: Dict[str, Any]) -> Dict[str, Any]:
             nz = (P0.abs().sum(-1, keepdim=True) > 0) & (P0.abs().sum(-2, keepdim=True) > 0)
             noise = torch.as_tensor(rng.normal(size=tuple(P0.shape))) * 0.02
             P0 = P0 + 0.5 * (noise + noise.transpose(-1, -2)) * nz
-    b = _run_cfg(names, method, eps, inp["b"], P0=P0)
+    if inp.get("perm") and len(names) > 1 and P0 is None:
+        # same process, same tensor shapes, the batch in reverse order: the second solver must still land on the same answers
+        b = _run_cfg(names[::-1], method, eps, inp["b"])
+        b = {k: (v[::-1] if isinstance(v, np.ndarray) and v.ndim >= 1 and v.shape[0] == len(names) else v) for k, v in b.items()}
+    else:
+        b = _run_cfg(names, method, eps, inp["b"], P0=P0)
     bad: List[str] = []
     kinds = set()
     if np.asarray(a["notconverged"]).any() or np.asarray(b["notconverged"]).any():
@@ -123,7 +128,10 @@ def gen_cases(ctx: Ctx):
             pass
         c = {"names": names, "method": methods[i % 4], "eps": float(rng.choice([1e-8, 1e-9, 1e-10])), "a": a, "b": b, "seed": int(rng.integers(0, 10**6)),
              "restart": [None, "previous", "perturbed"][i % 3]}
+        c["perm"] = bool(k > 1 and c["restart"] is None)
         cases.append(("solver_pair", c))
+    # both SP2 configurations on a mixed-size batch, second one on the reversed batch
+    cases.append(("solver_pair", {"names": ["h2o", "ch2o", "c2h4"], "method": "AM1", "eps": 1e-9, "a": "adaptive_sp2", "b": "fixed_sp2", "seed": 1, "restart": None, "perm": True}))
     for i in range(4 if ctx.thorough else 1):
         cases.append(("tightening", {"names": [str(rng.choice(pool))], "method": methods[i % 4], "cfg": ["adaptive", "pulay", "fixed3", "adaptive_sp2"][i % 4]}))
     return cases
